@@ -222,4 +222,8 @@ def dataclass_specs(fields=None):
             out.append(("dc", base, (("a", f, None),), None))
         for f in fields[:6]:
             out.append(("dc", base, (("a", f, None), ("b", ("t", "str"), "'dflt'")), None))
+        # a field that takes no input, in a class that keeps unknown keys: what is given for it is neither stored raw
+        # under its name nor kept as an extra key
+        out.append(("dc", base, (("a", ("t", "int"), None), ("v", ("r", "int", (("ge", "0"),), "cls"), "Field(no_input=True, default=0)")),
+                    "Options(addition=True)"))
     return out
